@@ -5,6 +5,11 @@ from fractions import Fraction
 from vf import import_desper
 from vf.core import Res, HarnessError
 
+
+class HarnessInterrupt(BaseException):
+    """A scripted fault that is not an Exception (as KeyboardInterrupt,
+    SystemExit, GeneratorExit, asyncio.CancelledError are not)."""
+
 ID = 'C08'
 LEVEL = 'exploration'
 RULE = ('1-8 coroutines whose bodies replay a script of yield values (None, '
@@ -271,7 +276,11 @@ def run_case(case):
         for i, item in enumerate(script):
             log.append((frame[0], uid, i))
             if isinstance(item, dict) and item.get('raise'):
-                fault.append(HarnessError(f'coroutine {uid} raises'))
+                # (every other time an exception that is NOT an Exception:
+                # KeyboardInterrupt-like; the program catches it all the same)
+                fault.append((HarnessInterrupt if (uid + len(fault)) % 2
+                              else HarnessError)(
+                    f'coroutine {uid} raises'))
                 raise fault[-1]
             if isinstance(item, dict) and item.get('bad'):
                 import decimal
@@ -325,7 +334,7 @@ def run_case(case):
         nfaults = len(fault)
         try:
             proc.process(dt)
-        except Exception as ex:
+        except (Exception, HarnessInterrupt) as ex:
             if len(fault) == nfaults + 1 and ex is fault[-1]:
                 # the frame was abandoned where the body raised
                 failed = True
